@@ -217,6 +217,38 @@ Theorem C03_concat_refines : forall (ent : Type) (val : list ent -> Z) (lbl : na
 Proof. intros ent val lbl. exact (concat_refines val lbl). Qed.
 Print Assumptions C03_concat_refines.
 
+(** adjoin / append of the square-taxa classes (both taxa axes): the entity list of both axes becomes old ++ new, the label
+    arrays follow, the cells of pairs inside the old block and inside the new block are kept, cross pairs hold the fill
+    value ([val_bd]); entity equality is decidable and the new entities are distinct from the old ones *)
+Theorem C03_adjoin_square_refines : forall (ent : Type) (eq_dec : forall x y : ent, {x = y} + {x <> y}) (val : list ent -> Z)
+    (lbl : nat -> nat -> ent -> lab) c s k v ts us rest s',
+  wf_cls c -> (k < length (axs c))%nat -> taxes c k = [0; 1]%nat ->
+  Rep val lbl c s (ts :: ts :: rest) -> (forall x, In x ts -> ~ In x us) ->
+  o_shape v = map (@length ent) (us :: us :: rest) -> o_data v = build (us :: us :: rest) val ->
+  (forall j, (j < length (labs (ax_of s k)))%nat ->
+     match nth j (labs (ax_of s k)) None, eff_lab c k v j with
+     | Some _, Some g => g = map (lbl k j) us
+     | Some _, None => nth j (pol_adj (sch c k)) PReq = PFill /\ forall u, In u us -> lbl k j u = None
+     | None, g => g = None end) ->
+  op_adjoin c s k v = OK s' ->
+  Rep (val_bd eq_dec val ts us) lbl c s' ((ts ++ us) :: (ts ++ us) :: rest) /\ (drop_other c = false -> no_loss s s').
+Proof. intros ent eq_dec val lbl. exact (adjoin_square_refines eq_dec val lbl). Qed.
+Print Assumptions C03_adjoin_square_refines.
+Theorem C03_append_square_refines : forall (ent : Type) (eq_dec : forall x y : ent, {x = y} + {x <> y}) (val : list ent -> Z)
+    (lbl : nat -> nat -> ent -> lab) c s k v ts us rest s',
+  wf_cls c -> (k < length (axs c))%nat -> taxes c k = [0; 1]%nat ->
+  Rep val lbl c s (ts :: ts :: rest) -> (forall x, In x ts -> ~ In x us) ->
+  o_shape v = map (@length ent) (us :: us :: rest) -> o_data v = build (us :: us :: rest) val ->
+  (forall j, (j < length (labs (ax_of s k)))%nat ->
+     match nth j (labs (ax_of s k)) None, eff_lab c k v j with
+     | Some _, Some g => g = map (lbl k j) us
+     | Some _, None => nth j (pol_adj (sch c k)) PReq = PFill /\ forall u, In u us -> lbl k j u = None
+     | None, g => g = None end) ->
+  op_append c s k v = OK s' ->
+  Rep (val_bd eq_dec val ts us) lbl c s' ((ts ++ us) :: (ts ++ us) :: rest) /\ no_loss s s'.
+Proof. intros ent eq_dec val lbl. exact (append_square_refines eq_dec val lbl). Qed.
+Print Assumptions C03_append_square_refines.
+
 (** every history of select / delete / remove / reorder / sort / group / ungroup steps (any class incl. the square ones,
     any labelled axis, generic or axis-specific form, any arguments): each state reached is the image ([Rep]) of entity
     lists whose members all come from the initial lists of the same axis — labels and cells travel with their entity *)
